@@ -8,6 +8,7 @@ followed by the beam-sync retry loop: supply only the reported node and retry.
 from trie.exceptions import MissingTraversalNode, MissingTrieNode, TraversedPartialPath
 
 from ..core import HarnessError, Stats, Violation, deep, hx, unhx
+from ..simdb import STORE_FLAVOURS
 from ..hgen import HistoryGen, make_pool, make_values, probe_keys, rare_huge
 from ..hworld import HWorld
 from ..models.mpt import RefMPT, nibbles_of
@@ -369,7 +370,7 @@ def generate(rng):
             prefix.append(g.mutation("batch"))
         present = g.batch_present
         on = "batch"
-    return {"cfg": {"prune": prune, "cache": cache, "store": rng.choice(["min", "min", "dict"])}, "prefix": prefix, "pool": pool, "probes": probes, "values": values, "present": dict(present), "on": on}
+    return {"cfg": {"prune": prune, "cache": cache, "store": rng.choice(STORE_FLAVOURS)}, "prefix": prefix, "pool": pool, "probes": probes, "values": values, "present": dict(present), "on": on}
 
 
 def subsets(rng, live, n):
